@@ -83,8 +83,15 @@ SIGS = {
 class ModCtx:
     """functions of one module, for helper resolution"""
 
-    def __init__(self, tree: ast.Module):
+    def __init__(self, tree: ast.Module, root: Path | None = None):
         self.tree = tree
+        self.root = root
+        self._numeric: dict[str, Any] = {}
+        self.imported: dict[str, tuple[str, str]] = {}
+        for st in ast.walk(tree):
+            if isinstance(st, ast.ImportFrom) and st.module and st.module.startswith("pendulum") and st.level == 0:
+                for a in st.names:
+                    self.imported[a.asname or a.name] = (st.module, a.name)
         self.funcs: dict[str, ast.FunctionDef] = {}
         self.classes: dict[str, dict[str, ast.FunctionDef]] = {}
         self.bases: dict[str, list[str]] = {}
@@ -112,6 +119,31 @@ class ModCtx:
                     rec(st.orelse, cls)
         rec(tree.body)
 
+    def numeric(self, name: str):
+        """value of a module-level / imported numeric constant (None when it is not one)"""
+        if name in self._numeric:
+            return self._numeric[name]
+        v = None
+        node = self.consts.get(name)
+        if node is not None:
+            v = _numeric_value(node, self)
+        elif name in self.imported and self.root is not None:
+            modname, orig = self.imported[name]
+            p = self.root / "src" / (modname.replace(".", "/") + ".py")
+            if not p.exists():
+                p = self.root / "src" / modname.replace(".", "/") / "__init__.py"
+            other = _MODCTX_CACHE.get(str(p))
+            if other is None and p.exists():
+                try:
+                    other = ModCtx(ast.parse(p.read_text(encoding="utf-8")), self.root)
+                except SyntaxError:
+                    other = None
+                _MODCTX_CACHE[str(p)] = other
+            if other is not None and other is not self:
+                v = other.numeric(orig)
+        self._numeric[name] = v
+        return v
+
     def method(self, cls: str | None, name: str) -> ast.FunctionDef | None:
         seen = set()
         work = [cls] if cls else []
@@ -124,6 +156,30 @@ class ModCtx:
                 return self.classes[c][name]
             work += [b.split(".")[-1] for b in self.bases.get(c, [])]
         return None
+
+
+_MODCTX_CACHE: dict[str, Any] = {}
+
+
+def _numeric_value(node, ctx: "ModCtx", depth: int = 0):
+    if depth > 6:
+        return None
+    if isinstance(node, ast.Constant) and isinstance(node.value, (int, float)) and not isinstance(node.value, bool):
+        return node.value
+    if isinstance(node, ast.UnaryOp) and isinstance(node.op, ast.USub):
+        v = _numeric_value(node.operand, ctx, depth + 1)
+        return -v if v is not None else None
+    if isinstance(node, ast.BinOp) and isinstance(node.op, (ast.Add, ast.Sub, ast.Mult, ast.Pow)):
+        a, b = _numeric_value(node.left, ctx, depth + 1), _numeric_value(node.right, ctx, depth + 1)
+        if a is None or b is None:
+            return None
+        try:
+            return {ast.Add: a + b, ast.Sub: a - b, ast.Mult: a * b}.get(type(node.op), None) if not isinstance(node.op, ast.Pow) else (a ** b if abs(b) < 64 else None)
+        except Exception:       # noqa: BLE001
+            return None
+    if isinstance(node, ast.Name):
+        return ctx.numeric(node.id)
+    return None
 
 
 def _params(fn) -> tuple[list[str], dict[str, ast.expr], str | None, str | None, list[str]]:
@@ -217,6 +273,20 @@ class Printer:
             if len(a) * len(b) > 400:
                 raise Giveup("polynomial too large")
             return _mul(a, b)
+        if isinstance(n, ast.BinOp) and isinstance(n.op, ast.Mod) and not self.stringish(n.left):
+            # a % b == a - b * (a // b): only the floor quotient is kept as an atom
+            a, b = self.poly(n.left), self.poly(n.right)
+            q = {(f"FloorDiv({intern(show(a))}, {intern(show(b))})",): Fraction(1)}
+            if len(b) * len(q) > 400:
+                raise Giveup("polynomial too large")
+            return _add(a, _mul(b, q), -1)
+        if isinstance(n, ast.BinOp) and isinstance(n.op, ast.FloorDiv):
+            a, b = self.poly(n.left), self.poly(n.right)
+            return {(f"FloorDiv({intern(show(a))}, {intern(show(b))})",): Fraction(1)}
+        if isinstance(n, ast.Name):
+            v = self.ctx.numeric(n.id)
+            if v is not None:
+                return {(): Fraction(v)} if v != 0 else {}
         return {(self.s(n, arith=False),): Fraction(1)}
 
     def s(self, n, arith: bool = True) -> str:
@@ -235,8 +305,10 @@ class Printer:
             if isinstance(n.value, (int, float)) and not isinstance(n.value, bool) and arith:
                 return show(self.poly(n))
             return repr(n.value)
+        if arith and isinstance(n, ast.Name) and self.ctx.numeric(n.id) is not None:
+            return show(self.poly(n))
         if arith and isinstance(n, (ast.BinOp, ast.UnaryOp)) and not isinstance(getattr(n, "op", None), (ast.Not, ast.Invert)):
-            if isinstance(n, ast.BinOp) and not isinstance(n.op, (ast.Add, ast.Sub, ast.Mult)):
+            if isinstance(n, ast.BinOp) and not isinstance(n.op, (ast.Add, ast.Sub, ast.Mult, ast.Mod, ast.FloorDiv)):
                 return f"{type(n.op).__name__}({self.s(n.left)}, {self.s(n.right)})"
             if isinstance(n, ast.BinOp) and self.stringish(n):
                 return f"{type(n.op).__name__}({self.s(n.left)}, {self.s(n.right)})"
@@ -301,6 +373,10 @@ class Printer:
         return ast.unparse(n)
 
     def call(self, n: ast.Call) -> str:
+        if _size(n) < 40:
+            folded = _const_fold(n)
+            if folded is not None:
+                return repr(folded.value)
         f = self.s(n.func)
         fd = core.dotted(n.func)
         if fd in ("min", "max") and not n.keywords and len(n.args) >= 2 and not any(isinstance(a, ast.Starred) for a in n.args):
@@ -365,7 +441,7 @@ class Printer:
         if m is not None:
             return m[1]
         k, p = self._atom(n)
-        r = (intern(k), p)
+        r = (k if (k.startswith("#") and k[1:].isdigit()) else intern(k), p)
         self._memo_a[id(n)] = (n, r)
         return r
 
@@ -386,9 +462,16 @@ class Printer:
                         d = {m: -c for m, c in d.items()}
                         sym = flip[sym]
                 neg = {">=": "<", ">": "<=", "!=": "=="}
+                pol = True
                 if sym in neg:
-                    return f"{show(d)} {neg[sym]} 0", False
-                return f"{show(d)} {sym} 0", True
+                    sym, pol = neg[sym], False
+                # len(x) is never negative: `len(x) <= 0` and `len(x) < 1` are `len(x) == 0`
+                mons = [m for m in d if m != ()]
+                if len(mons) == 1 and len(mons[0]) == 1 and d[mons[0]] == 1 and detok(mons[0][0], 3).startswith("len("):
+                    c = d.get((), Fraction(0))
+                    if (sym == "<=" and c == 0) or (sym == "<" and c == -1):
+                        return f"{mons[0][0]} == 0", pol
+                return f"{show(d)} {sym} 0", pol
             if isinstance(op, ast.Eq):
                 a, b = sorted([self.s(l), self.s(r)])
                 return f"{a} == {b}", True
@@ -549,8 +632,12 @@ class Exec:
             t, a, b = self._ev(e.test, st, bound), self._ev(e.body, st, bound), self._ev(e.orelse, st, bound)
             return _minmax(t, a, b) or ast.IfExp(t, a, b)
         if isinstance(e, ast.BoolOp) and len(e.values) >= 2:
+            # `a or b` is `a if a else b`, `a and b` is `b if a else a` (as a test this decides the same way)
             vals = [self._ev(v, st, bound) for v in e.values]
-            return ast.BoolOp(e.op, vals)
+            res = vals[-1]
+            for v in reversed(vals[:-1]):
+                res = ast.IfExp(v, v, res) if isinstance(e.op, ast.Or) else ast.IfExp(v, res, v)
+            return res
         # generic
         new = type(e)()
         for f, v in ast.iter_fields(e):
@@ -582,6 +669,9 @@ class Exec:
                 return js
         func = self._ev(e.func, st, bound) if not isinstance(e.func, ast.Name) or e.func.id in st.env else e.func
         call = ast.Call(func, args, kws)
+        folded = _const_fold(call)
+        if folded is not None:
+            return folded
         helper = self._resolve_helper(e.func, st)
         if helper is not None and self.depth < MAX_DEPTH:
             v = self._inline(helper, call, st)
@@ -817,8 +907,9 @@ class Exec:
                 for k in set(sa.env) | set(sb.env):
                     va, vb = sa.env.get(k), sb.env.get(k)
                     if va is None or vb is None:
-                        va = va if va is not None else _name(f"$undef_{k}")
-                        vb = vb if vb is not None else _name(f"$undef_{k}")
+                        # not bound in one arm: the name keeps what it denoted before (a parameter, a global)
+                        va = va if va is not None else _name(k)
+                        vb = vb if vb is not None else _name(k)
                     merged.env[k] = va if (va is vb or _same(va, vb)) else (_minmax(test, va, vb) or ast.IfExp(test, va, vb))
                 for k in set(sa.stores) | set(sb.stores):
                     va, vb = sa.stores.get(k), sb.stores.get(k)
@@ -964,7 +1055,7 @@ class Exec:
             items.append(("final", n, v))
         leaves: set = set()
         self._expand(list(st.conds), {}, items, leaves)
-        return frozenset(leaves)
+        return frozenset(_minimise(leaves))
 
     def _expand(self, conds, decided: dict, items, leaves: set) -> None:
         """fork on one undecided atom at a time (in evaluation order) until every path condition is decided and no
@@ -991,11 +1082,13 @@ class Exec:
                         r = _find_raise(node)
                         if r is not None and raised is None:
                             raised = r
-                cset = frozenset(decided.items())
+                cset = self._simplify(decided)
+                if cset is None:
+                    return
                 if raised is not None:
                     leaves.add((cset, (("exit", RAISE, self.printer.s(raised)),)))
                 else:
-                    leaves.add((cset, tuple(self._item_canon(it) for it in new_items)))
+                    leaves.add((cset, tuple(x for x in (self._item_canon(it) for it in new_items) if not (x[0] == "store" and x[2] == "$same"))))
                 return
         k = ask[0]
         for v in (True, False):
@@ -1034,6 +1127,25 @@ class Exec:
             return self._truth(e.body if t else e.orelse, decided, memo, ask)
         if isinstance(e, ast.Constant):
             return bool(e.value)
+        if isinstance(e, ast.Call) and not e.keywords:
+            fd = core.dotted(e.func)
+            if fd in ("any", "all") and len(e.args) == 1 and isinstance(e.args[0], (ast.List, ast.Tuple)) and e.args[0].elts \
+                    and not any(isinstance(x, ast.Starred) for x in e.args[0].elts):
+                return self._truth(ast.BoolOp(ast.Or() if fd == "any" else ast.And(), list(e.args[0].elts)), decided, memo, ask)
+            if fd == "bool" and len(e.args) == 1:
+                return self._truth(e.args[0], decided, memo, ask)
+            if fd == "isinstance" and len(e.args) == 2 and isinstance(e.args[1], ast.Tuple) and e.args[1].elts:
+                return self._truth(ast.BoolOp(ast.Or(), [ast.Call(e.func, [e.args[0], t], []) for t in e.args[1].elts]), decided, memo, ask)
+        if isinstance(e, ast.Compare) and len(e.ops) == 1 and isinstance(e.ops[0], (ast.Eq, ast.NotEq)) \
+                and _boolish(e.left) and _boolish(e.comparators[0]):
+            # a == b / a != b on truth values: decided through the operands (xor written either way)
+            ta = self._truth(e.left, decided, memo, ask)
+            if ta is None:
+                return None
+            tb = self._truth(e.comparators[0], decided, memo, ask)
+            if tb is None:
+                return None
+            return (ta == tb) if isinstance(e.ops[0], ast.Eq) else (ta != tb)
         r = self._resolve(e, decided, memo, ask)
         if ask:
             return None
@@ -1101,8 +1213,45 @@ class Exec:
             return x
         return rec(it)
 
+    def _simplify(self, decided: dict) -> frozenset:
+        """drop path-condition atoms implied by others through the class hierarchy (isinstance(x, Sub) => isinstance(x,
+        Base)); an impossible combination yields None"""
+        import re as _re
+        items = dict(decided)
+        inst = []
+        for k, v in items.items():
+            m = _re.fullmatch(r"isinstance\((.+), ([\w.]+)\)", detok(k, 8))
+            if m:
+                inst.append((k, m.group(1), m.group(2).split(".")[-1], v))
+        drop = set()
+        for k1, x1, c1, v1 in inst:
+            for k2, x2, c2, v2 in inst:
+                if k1 == k2 or x1 != x2 or c1 == c2:
+                    continue
+                r1, r2 = layout_root(c1), layout_root(c2)
+                if r1 and r2 and r1 != r2:           # e.g. an int is never a timedelta
+                    if v1 and v2:
+                        return None
+                    if v1 and not v2:
+                        drop.add(k2)
+                    continue
+                if c2 in subclasses_of(c1):          # c2 is a subclass of c1
+                    if v2 and not v1:
+                        return None                 # is a Sub but not a Base: impossible
+                    if v2 and v1:
+                        drop.add(k1)                # Base follows from Sub
+                    if not v1 and not v2:
+                        drop.add(k2)                # not Sub follows from not Base
+        return frozenset((k, v) for k, v in items.items() if k not in drop)
+
     def _item_canon(self, it):
         tag = it[0]
+        if tag == "store" and isinstance(it[2], ast.AST):
+            try:
+                if self.printer.s(it[2]) == self.printer.s(_attr_from_key(it[1])):
+                    return ("store", it[1], "$same")           # writes back what was read: no effect
+            except SyntaxError:
+                pass
         if tag == "exit":
             return (tag, it[1], self.printer.s(it[2]) if isinstance(it[2], ast.AST) else None)
         if tag in ("store", "final"):
@@ -1110,6 +1259,16 @@ class Exec:
         if tag == "effect":
             return (tag, it[1], _eff_canon(it[2], self.printer))
         return it
+
+
+def _boolish(n) -> bool:
+    if isinstance(n, (ast.Compare, ast.BoolOp)):
+        return True
+    if isinstance(n, ast.UnaryOp) and isinstance(n.op, ast.Not):
+        return True
+    if isinstance(n, ast.Call) and core.dotted(n.func) in ("isinstance", "issubclass", "callable", "hasattr", "bool"):
+        return True
+    return False
 
 
 _HAS_ITE: dict[int, tuple[Any, bool]] = {}
@@ -1244,6 +1403,45 @@ def _item_replace(it, old, new):
     return rec(it)
 
 
+_PURE = {"int": int, "float": float, "abs": abs, "round": round, "len": len, "str": str, "bool": bool, "min": min, "max": max}
+
+
+def _const_value(n):
+    """python value of an expression made of literals, timedelta(...) and a few pure builtins; raises ValueError otherwise"""
+    import datetime as _dtm
+    if isinstance(n, ast.Constant):
+        return n.value
+    if isinstance(n, (ast.Tuple, ast.List)):
+        return tuple(_const_value(x) for x in n.elts)
+    if isinstance(n, ast.UnaryOp) and isinstance(n.op, ast.USub):
+        return -_const_value(n.operand)
+    if isinstance(n, ast.Call) and not any(k.arg is None for k in n.keywords):
+        d = core.dotted(n.func)
+        args = [_const_value(a) for a in n.args]
+        kws = {k.arg: _const_value(k.value) for k in n.keywords}
+        if d in _PURE:
+            return _PURE[d](*args, **kws)
+        if d in ("timedelta", "datetime.timedelta", "_datetime.timedelta"):
+            return _dtm.timedelta(*args, **kws)
+        if isinstance(n.func, ast.Attribute) and n.func.attr == "total_seconds" and not args and not kws:
+            v = _const_value(n.func.value)
+            if isinstance(v, _dtm.timedelta):
+                return v.total_seconds()
+    raise ValueError
+
+
+def _const_fold(call: ast.Call):
+    if not isinstance(call.func, (ast.Name, ast.Attribute)):
+        return None
+    try:
+        v = _const_value(call)
+    except Exception:       # noqa: BLE001 - anything that is not a closed constant expression
+        return None
+    if isinstance(v, (int, float, str, bool)) or v is None:
+        return ast.Constant(v)
+    return None
+
+
 def _minmax(t, a, b):
     """`a if a < b else b` (or <=) is min(a, b); with > / >= max(a, b)"""
     if isinstance(t, ast.Compare) and len(t.ops) == 1 and isinstance(t.ops[0], (ast.Lt, ast.LtE, ast.Gt, ast.GtE)):
@@ -1352,6 +1550,96 @@ def _iter_funcs(tree: ast.Module):
     yield from rec(tree.body, None)
 
 
+_SUBCLS: dict[str, dict[str, set[str]]] = {}
+
+
+def subclasses_of(base: str) -> set[str]:
+    """names of the classes of the analysed tree that derive (transitively) from `base` (by simple name)"""
+    root = str(core.REPO)
+    tab = _SUBCLS.get(root)
+    if tab is None:
+        parents: dict[str, set[str]] = {"datetime": {"date"}, "bool": {"int"}}
+        srcdir = core.REPO / "src/pendulum"
+        for p in srcdir.rglob("*.py") if srcdir.exists() else []:
+            if "locales" in p.parts:
+                continue
+            try:
+                t = ast.parse(p.read_text(encoding="utf-8"))
+            except (SyntaxError, OSError):
+                continue
+            for n in ast.walk(t):
+                if isinstance(n, ast.ClassDef):
+                    parents.setdefault(n.name, set()).update((core.dotted(b) or "").split(".")[-1] for b in n.bases)
+        tab = {}
+        for c in parents:
+            seen, work = set(), [c]
+            while work:
+                x = work.pop()
+                for b in parents.get(x, ()):
+                    if b and b not in seen:
+                        seen.add(b)
+                        work.append(b)
+            for b in seen:
+                tab.setdefault(b, set()).add(c)
+        _SUBCLS[root] = tab
+    return tab.get(base, set())
+
+
+_LAYOUT = {"int": "int", "bool": "int", "float": "float", "str": "str", "timedelta": "timedelta", "date": "date", "datetime": "date",
+           "time": "time", "tuple": "tuple", "list": "list", "dict": "dict"}
+
+
+def layout_root(cls: str) -> str | None:
+    """the builtin whose instance layout a class is built on: two classes with different roots have no common instances"""
+    if cls in _LAYOUT:
+        return _LAYOUT[cls]
+    for base, root in _LAYOUT.items():
+        if cls in subclasses_of(base):
+            return root
+    return None
+
+
+def _minimise(leaves: set) -> set:
+    """merge leaves with the same outcome whose conditions differ in the polarity of one atom, and drop leaves subsumed by a
+    weaker one (boolean minimisation, so that the order in which independent tests are made does not matter)"""
+    by_out: dict[Any, set] = {}
+    for conds, out in leaves:
+        by_out.setdefault(out, set()).add(conds)
+    res = set()
+    for out, group in by_out.items():
+        changed = True
+        rounds = 0
+        while changed and rounds < 12 and len(group) < 600:
+            changed = False
+            rounds += 1
+            lst = sorted(group, key=lambda c: (len(c), sorted(c)))
+            for i, a in enumerate(lst):
+                if a not in group:
+                    continue
+                for b in lst[i + 1:]:
+                    if b not in group or len(a) != len(b):
+                        continue
+                    diff = a ^ b
+                    if len(diff) == 2:
+                        (k1, v1), (k2, v2) = tuple(diff)
+                        if k1 == k2 and v1 != v2:
+                            group.discard(a)
+                            group.discard(b)
+                            group.add(a & b)
+                            changed = True
+                            break
+            # absorption
+            lst = sorted(group, key=len)
+            for i, a in enumerate(lst):
+                for b in lst[i + 1:]:
+                    if b in group and a in group and a < b:
+                        group.discard(b)
+                        changed = True
+        for c in group:
+            res.add((c, out))
+    return res
+
+
 STATS: dict[str, dict[str, list[str]]] = {}
 
 
@@ -1399,7 +1687,7 @@ def hybridise(tree: ast.Module, text: str, rel: str) -> ast.Module:
     except SyntaxError:
         return tree
     stats = STATS.setdefault(rel, {"identical": [], "equivalent": [], "different": [], "new": [], "restored": [], "gave_up": []})
-    ctx_a, ctx_r = ModCtx(tree), ModCtx(ref_tree)
+    ctx_a, ctx_r = ModCtx(tree, core.REPO), ModCtx(ref_tree, REF_ROOT)
     ref_funcs = {q: (cls, node) for q, cls, node, _b, _i in _iter_funcs(ref_tree)}
     seen = set()
     all_equiv_or_same = True
